@@ -40,11 +40,13 @@ var pureStdlib = map[string]bool{
 	"(github.com/shopspring/decimal.Decimal).IntPart": true, "(github.com/shopspring/decimal.Decimal).Equal": true,
 	"github.com/shopspring/decimal.NewFromInt": true, "github.com/shopspring/decimal.NewFromFloat": true, "github.com/shopspring/decimal.NewFromString": true,
 	"reflect.TypeOf": true, "reflect.ValueOf": true,
+	"github.com/dolthub/vitess/go/mysql.NewSQLError": true,
 }
 
 // nonNilResult: assumed contracts "result is never nil"
 var nonNilResult = map[string]bool{
 	"fmt.Errorf": true, "errors.New": true, "(*gopkg.in/src-d/go-errors.v1.Kind).New": true, "gopkg.in/src-d/go-errors.v1.NewKind": true,
+	"github.com/dolthub/vitess/go/mysql.NewSQLError": true,
 }
 
 func calleeName(f *ssa.Function) string {
@@ -198,7 +200,7 @@ func (P *Program) contractFor(f *ssa.Function) *FuncInfo {
 
 func (vc *VC) havocAll(st *State) {
 	for name := range vc.heapSort {
-		if strings.HasPrefix(name, "iter@") || strings.HasPrefix(name, "Local_") {
+		if strings.HasPrefix(name, "iter@") || strings.HasPrefix(name, "Local_") || strings.HasPrefix(name, "$") {
 			continue // range iterators and non-escaping locals cannot be reached by a callee
 		}
 		vc.havocHeap(st, name)
@@ -234,6 +236,9 @@ func (vc *VC) call(in ssa.Instruction, c *ssa.CallCommon, st *State, reach Term)
 		if r, ok := vc.stdlibModel(calleeName(f), c, args, st, reach, rt, pos); ok {
 			return r
 		}
+		if r, ok := vc.bytesStdlib(calleeName(f), args, st, reach, rt, pos); ok {
+			return r
+		}
 		if pureStdlib[calleeName(f)] {
 			vc.assume("assumed pure and total (external): " + calleeName(f))
 			r := vc.freshTyped(st, "call", rt, reach)
@@ -248,6 +253,9 @@ func (vc *VC) call(in ssa.Instruction, c *ssa.CallCommon, st *State, reach Term)
 			return r
 		}
 	} else if c.IsInvoke() {
+		if r, ok := vc.hashInvoke(c, args, st, reach, rt, pos); ok {
+			return r
+		}
 		if fi := vc.P.byObj[c.Method]; fi != nil {
 			// receiver must be non-nil to invoke
 			vc.oblige("safe:nil", "invoke", reach, not(app("(_ is dnil)", args[0].t)), pos, vc.construct(pos))
@@ -257,9 +265,19 @@ func (vc *VC) call(in ssa.Instruction, c *ssa.CallCommon, st *State, reach Term)
 	} else {
 		// closure / function value
 		fv := vc.val(c.Value)
-		if !vc.nonnil[c.Value] {
+		if !vc.nonnil[c.Value] && !(vc.panicMode && !vc.inRunDefers) {
+			// (in a function with defer, calling a nil function value is one of the ways the call panics)
 			vc.oblige("safe:nil", "funcvalue", reach, not(eq(fv.t, "0")), pos, vc.construct(pos))
 		}
+	}
+	if mc, ok := c.Value.(*ssa.MakeClosure); ok && !c.IsInvoke() {
+		if lit, ok := mc.Fn.(*ssa.Function); ok && len(lit.Blocks) > 0 {
+			return vc.inlineCall(lit, args, mc.Bindings, st, reach, rt, pos)
+		}
+	}
+	if lit, ok := c.Value.(*ssa.Function); ok && !c.IsInvoke() && lit.Parent() != nil && len(lit.Blocks) > 0 && len(lit.FreeVars) == 0 {
+		// a function literal that captures nothing
+		return vc.inlineCall(lit, args, nil, st, reach, rt, pos)
 	}
 	// unknown call
 	name := "dynamic call"
@@ -270,7 +288,9 @@ func (vc *VC) call(in ssa.Instruction, c *ssa.CallCommon, st *State, reach Term)
 	}
 	vc.assume("call without contract: result unconstrained, reachable memory havocked, assumed not to panic: " + name)
 	vc.havocForCall(c, st)
-	return vc.freshTyped(st, "call", rt, reach)
+	res := vc.freshTyped(st, "call", rt, reach)
+	vc.mayPanicCall(c, res, st, reach)
+	return res
 }
 
 func markerOrdinal2(f *ssa.Function) (int, bool) {
@@ -387,6 +407,9 @@ func (vc *VC) contractCall(fi *FuncInfo, args []Val, st *State, reach Term, rt t
 	for _, cl := range fi.fc.Ensures {
 		t := vc.clauseTerm(fi, cl, env, renv, st, pre)
 		vc.addAssume(reach, t)
+		if cl.NameOnly {
+			vc.assume("result naming (no obligation; the function is assumed to be a function of the named arguments within one caller): " + fi.qname() + ": " + cl.Text)
+		}
 	}
 	return res
 }
@@ -575,8 +598,7 @@ func (vc *VC) builtin(name string, c *ssa.CallCommon, st *State, reach Term, rt 
 	case "print", "println":
 		return Val{typ: rt}
 	case "recover":
-		// outside a deferred call during panicking, recover returns nil
-		return Val{t: "dnil", typ: rt}
+		return vc.recoverCall(st, rt)
 	case "delete":
 		mt := c.Args[0].Type().Underlying().(*types.Map)
 		hn, sort, ms := vc.mapHeapName(mt)
@@ -741,16 +763,6 @@ func (vc *VC) next(x *ssa.Next, st *State, reach Term) {
 	vc.heapSet(st, hn, "Int", app("+", pos, "1"))
 	vc.assume("map range: yields arbitrary present keys; completeness/termination of map iteration assumed")
 	vc.vals[x] = Val{tuple: []Val{{t: okc, typ: types.Typ[types.Bool]}, k, v}, typ: x.Type()}
-}
-
-// ---------------------------------------------------------------------------
-// defer / recover (minimal)
-
-func (vc *VC) deferInstr(x *ssa.Defer, st *State, reach Term) {
-	vc.fail("defer is handled only by the errguard front end (function %s)", vc.fn.String())
-}
-
-func (vc *VC) runDefers(x *ssa.RunDefers, st *State, reach Term) {
 }
 
 // ---------------------------------------------------------------------------
